@@ -5,6 +5,7 @@
 #include <sanitizer/lsan_interface.h>
 
 #include "blfkit.h"
+#include <Vector/BLF/Exceptions.h>
 #include "pathrun.h"
 
 using namespace Vector::BLF;
@@ -78,6 +79,13 @@ int main(int argc, char ** argv) {
             else if (op == "openUnwritable") f->open("/nonexistent-dir-verif/out.blf", std::ios_base::out);
             else if (op == "openIn") { f->open(in.c_str(), std::ios_base::in); reading = true; }
             else if (op == "openOut") f->open(out.c_str(), std::ios_base::out);
+            else if (op == "openGarbage") {
+                std::string g = dir + "/garbage.bin";
+                kit::write_file(g, std::vector<uint8_t>(300, (uint8_t) 'x'));
+                bool thrown = false;
+                try { f->open(g.c_str(), std::ios_base::in); } catch (Vector::BLF::Exception &) { thrown = true; }
+                if (!thrown) wrongId = true;       // the documented outcome is the library's exception
+            }
             else if (op == "openAgain") f->open(reading ? out.c_str() : in.c_str(), reading ? std::ios_base::out : std::ios_base::in);
             else if (op == "read") {
                 ObjectHeaderBase * o = f->read();
@@ -87,7 +95,7 @@ int main(int argc, char ** argv) {
                     if (!h || (long) h->objectTimeStamp != k) wrongId = true;
                     mine.push_back(o);
                 }
-            } else if (op == "write") {
+            } else if (op == "write" || op == "writeClosed") {
                 auto * m = new CanMessage;
                 m->objectTimeStamp = (uint64_t) ++w;
                 f->write(m);
